@@ -42,6 +42,7 @@ def check(ck):
     H.assoc_path_shape(ck, 'R06.8')
     H.deep_merge_shape(ck, 'R06.8')
     H.deep_merge_shape(ck, 'R06.8', 'deep_merge_multi_update')
+    H.multi_update_collision_shape(ck, 'R06.8')
     H.target_not_rebound_by_truthiness(ck, 'R06.8', [
         ('deep_merge_multi_update', 'library.dict_utils'),
         ('deep_merge', 'library.dict_utils'),
